@@ -96,6 +96,24 @@ def fake_aligner_call(command, stdout=None, stderr=None):
     return 0
 
 
+class FakeFasta:
+    """stand-in for pyfaidx.Fasta: a missing index (or one older than the reference) is written in place, in two steps; the object holds
+       what the index file says"""
+    def __init__(self, reference, indexname=None):
+        with open(reference, "r") as f:
+            ref = f.read()
+        if not os.path.exists(indexname) or os.path.getmtime(indexname) < os.path.getmtime(reference):
+            with open(indexname, "w") as f:
+                f.write("fai-of:")
+                f.flush()
+                f.write(ref + ";end")
+        with open(indexname, "r") as f:
+            self.index = f.read()
+
+    def close(self):
+        pass
+
+
 def mapper_stand_ins(RM):
     """stand-ins for minimap2 (index building and mapping), samtools sort and samtools index under the REAL index_reference / align_fasta:
        each program reads its input file and writes its output file in place, in two steps, as the real programs do"""
@@ -194,6 +212,18 @@ def make_process(pid, gtf, outdir, clean_start=False, with_mapper_caches=False, 
                 res["index_content"] = f.read()
             res["index_path"] = idx
             with open(args.reference, "r") as f:
+                res["ref_end"] = f.read()
+        elif with_mapper_caches == "fai":
+            # every run loads the reference through the index next to it (the real DatasetProcessor.load_reference over a stand-in for
+            # pyfaidx); the index does not exist yet
+            import src.dataset_processor as DP
+            DP.Fasta = FakeFasta
+            ref = V + "data/ref1.fa"
+            with open(ref, "r") as f:
+                res["ref_start"] = f.read()
+            rec = DP.DatasetProcessor.load_reference(ref, ref + ".fai")
+            res["fai_loaded"] = rec.index
+            with open(ref, "r") as f:
                 res["ref_end"] = f.read()
         elif with_mapper_caches in ("alignment", "alignment2", "alignment-uf"):
             # FASTQ mode: start-up of the run in its folder (what isoquant.check_and_load_args does for every new run), then the real
@@ -380,6 +410,10 @@ def scenario(name):
         # the reference is replaced by a new assembly while run 1 builds its index; run 2 works on the same path
         return [(1, g(1), o(1), False, "index"), ("editor", V + "data/ref1.fa", "x-new-assembly"), (2, g(1), o(2), False, "index")], \
             lambda v: base_init(v, cfg_exists=True)
+    if name == "fai-two-fresh":
+        return [(1, g(1), o(1), False, "fai"), (2, g(1), o(2), False, "fai")], lambda v: base_init(v, cfg_exists=True)
+    if name == "fai-three-fresh":
+        return [(1, g(1), o(1), False, "fai"), (2, g(2), o(2), False, "fai"), (3, g(2), o(3), False, "fai")], lambda v: base_init(v, cfg_exists=True)
     if name == "index-two-fresh":
         return [(1, g(1), o(1), False, "index"), (2, g(1), o(2), False, "index")], lambda v: base_init(v, cfg_exists=True)
     if name == "failing-run-vs-valid":
@@ -466,6 +500,11 @@ def make_check(specs):
             if r["db_content"] not in exps:
                 out.append(("foreign-or-partial-db", "process %d uses %s whose content is %r, expected a conversion of its own input %r" %
                             (pid, r["db"], r["db_content"], exp)))
+            if mapper == "fai":
+                if r["fai_loaded"] not in ("fai-of:%s;end" % r["ref_start"], "fai-of:%s;end" % r["ref_end"]):
+                    out.append(("foreign-or-partial-fai", "process %d loads the reference through an index whose content is %r, expected the "
+                                "complete index of its reference" % (pid, r["fai_loaded"])))
+                continue
             if mapper == "index":
                 if r["index_content"] not in ("idx-of:%s;end" % r["ref_start"], "idx-of:%s;end" % r["ref_end"]):
                     out.append(("foreign-or-partial-index", "process %d loads the index %s whose content is %r, expected the complete index of its "
@@ -500,6 +539,15 @@ def make_check(specs):
 
 
 _RM_ORIG = {}
+_DP_ORIG = {}
+
+
+def restore_fasta():
+    """the pyfaidx stand-in of the fai scenarios must not survive into another scenario or a real run of the same worker"""
+    import src.dataset_processor as DP_
+    if "Fasta" not in _DP_ORIG:
+        _DP_ORIG["Fasta"] = DP_.Fasta if DP_.Fasta is not FakeFasta else __import__("pyfaidx").Fasta
+    DP_.Fasta = _DP_ORIG["Fasta"]
 
 
 def run_scenario(args):
@@ -512,6 +560,7 @@ def run_scenario(args):
         _RM_ORIG.update({k: getattr(RM, k) for k in ("get_aligner", "subprocess", "pysam", "find_annotation", "align_fasta", "index_reference")})
     for k, v in _RM_ORIG.items():
         setattr(RM, k, v)
+    restore_fasta()
     gffutils.create_db = fake_create_db
     gffutils.FeatureDB = FakeFeatureDB
     os.environ["HOME"] = HOME
@@ -540,6 +589,7 @@ def shared_files_case(args):
     import shutil
     from vlib import syn, run
     from vlib import worlds as W
+    restore_fasta()
     d = os.path.join(scratch, "c20_shared_%d" % gz)
     shutil.rmtree(d, ignore_errors=True)
     w = W.mixed_world(1, groups=False, multimappers=False)
@@ -583,6 +633,7 @@ def borrowed_db_history_case(args):
     from vlib import syn, run
     from vlib import worlds as W
     from props import c12
+    restore_fasta()
     d = os.path.join(scratch, "c20_hist_%s_%s" % (kill_at, owner))
     shutil.rmtree(d, ignore_errors=True)
     w = W.mixed_world(1, groups=False, multimappers=False)
@@ -658,6 +709,8 @@ def run(ctx):
     jobs.append(("bed-rewrite-vs-cached-reader", 3 if quick else 4, 60000 if quick else 400000))
     jobs.append(("index-clean-start-vs-cached", 3 if quick else 4, 60000 if quick else 400000))
     jobs.append(("index-two-fresh", 2 if quick else 3, 60000 if quick else 400000))
+    jobs.append(("fai-two-fresh", 2 if quick else 3, 60000 if quick else 400000))
+    jobs.append(("fai-three-fresh", 1 if quick else 2, 60000 if quick else 400000))
     jobs.append(("clean-start-rerun-vs-cached-alignment", 3 if quick else 4, 60000 if quick else 400000))
     jobs.append(("alignment-two-fresh", 2 if quick else 3, 60000 if quick else 400000))
     jobs.append(("alignment-other-options", 1 if quick else 2, 60000 if quick else 400000))
